@@ -676,6 +676,7 @@ fn resolve_names_item_decl(ctx: &mut StaticsContext, symbol_table: &SymbolTable,
         }
         ItemKind::FuncDecl(f) => {
             let symbol_table = symbol_table.new_scope();
+            resolve_names_default_args(ctx, &symbol_table, &f.args);
             for arg in &f.args {
                 resolve_names_fn_arg(&symbol_table, &arg.name);
                 if let Some(annot) = &arg.ty {
@@ -1338,6 +1339,7 @@ fn resolve_names_func_helper(
     body: &Rc<Expr>,
     ret_type: &Option<Rc<Type>>,
 ) {
+    resolve_names_default_args(ctx, symbol_table, args);
     for arg in args {
         resolve_names_fn_arg(symbol_table, &arg.name);
         if let Some(ty_annot) = &arg.ty {
@@ -1349,6 +1351,20 @@ fn resolve_names_func_helper(
 
     if let Some(ty_annot) = ret_type {
         resolve_names_typ(ctx, symbol_table, ty_annot, true);
+    }
+}
+
+// A default value is evaluated by the caller, so it is resolved before any of the
+// parameters are in scope.
+fn resolve_names_default_args(
+    ctx: &mut StaticsContext,
+    symbol_table: &SymbolTable,
+    args: &[ArgMaybeAnnotated],
+) {
+    for arg in args {
+        if let Some(default_val) = &arg.default_val {
+            resolve_names_expr(ctx, symbol_table, default_val);
+        }
     }
 }
 
